@@ -14,7 +14,7 @@ CHECKS = {
    text="TLC exhausts the LockEngine design model (admission rule, wake pass, timers) for the GrantOK action property; TLC-generated and wide-range histories are replayed on the real LockDB and every recorded trace is validated by TLC against the C01 monitor, which keeps the outstanding holds exactly as the statement defines them and evaluates the Count bound at every new-holder reply."),
  "C02": dict(level="model_checking", design="5/C02", technique="TLC on LockEngine + trace validation against MonLock (unlock ownership, re-entrant depth clauses)",
    text="The monitor predicts, from events alone, whether an unlock may be accepted (a hold with that LockId, or the oldest with unlock-first), how depth changes, and that a re-lock succeeds at most Rcount times; every real-code reply is judged against it. The model side checks RefusedUnlockChangesNothing and HoldersWellFormed exhaustively."),
- "C03": dict(level="model_checking", design="5/C03", technique="TLC on LockEngine (OneTerminalReply) + trace validation against MonLock (reply multiset per request and connection)",
+ "C03": dict(level="model_checking", design="5/C03", technique="TLC on LockEngine (OneTerminalReply) + trace validation against MonLock (reply multiset per request and connection); on real Binary/TextServerProtocol objects (engine W) idle-connection histories validated by TLC against the reply-correlation clauses of MonSession",
    text="Every reply delivered by the real code is attributed to the request and connection that sent it; a second terminal reply, an unknown RequestId, a reply on a foreign connection, an EXPRIED without a hold whose terms that request set, or an unanswered request at the end of a drained history is a violation."),
  "C04": dict(level="model_checking", design="5/C04", technique="TLC on LockEngine (NoLostWakeup, QueueOrderInv) + trace validation against MonLock (head-of-queue clause on snapshots, grant order clause)",
    text="At every quiescent point of every replayed history the head live waiter of each key (from the in-package snapshot) must not be admissible against the monitor's outstanding holds; every grant of a queued request is checked for overtaking an earlier or higher-priority waiter."),
